@@ -5,5 +5,9 @@ MC_NameSeq == <<"a", "b">>
 MC_AnyPlan == {<<>>}
 MC_GenPlans == {<<"create">> \o q : q \in [1..(MaxSteps - 1) -> Kinds \ {"create"}]}
                \cup {<<"create", "foreign">> \o q : q \in [1..(MaxSteps - 2) -> Kinds \ {"create", "foreign"}]}
+\* rotation family: versions are stored, the repository moves to root 2, the client comes back (shipping root 1 or
+\* the newest root), the repository moves on
+RotBase == <<"create", "update", "refresh", "transfer", "refresh", "update", "refresh", "refresh">>
+MC_RotPlans == {SubSeq(RotBase, 1, MaxSteps)} \cup {<<"create", "refresh", "transfer", "refresh">> \o q : q \in [1..(MaxSteps - 4) -> {"update", "refresh"}]}
 MC_NameSeq3 == <<"a", "b", "c">>
 =============================================================================
